@@ -1906,6 +1906,39 @@ func main() {
 		}
 		w("]\n\n")
 	}
+	{
+		su := statefulCensus()
+		type uk struct{ fn, typ, recv, op, held string }
+		seenU := map[uk]bool{}
+		var ks []uk
+		sites := map[uk][]string{}
+		for _, x := range su {
+			k := uk{x.fn, x.typ, x.recv, x.op, x.held}
+			if _, ok := seenU[k]; !ok {
+				ks = append(ks, k)
+			}
+			seenU[k] = seenU[k] || x.reach
+			sites[k] = append(sites[k], x.pos)
+		}
+		w("/-- the census of uses of objects with hidden mutable state (reviewed type list in extract/shapefacts/stateful.go) that\n    derive from session-wide state: (function, type, expression, operation, mutexes held, reachable from a worker body) -/\n")
+		w("def statefulUses : List (String × String × String × String × String × Bool) := [\n")
+		for i, k := range ks {
+			r := "false"
+			if seenU[k] {
+				r = "true"
+			}
+			w("  (%s, %s, %s, %s, %s, %s)%s\n", leanStr(k.fn), leanStr(k.typ), leanStr(k.recv), leanStr(k.op), leanStr(k.held), r, comma(i, len(ks)))
+		}
+		w("]\n\n")
+		w("def statefulUseSites : List String := [")
+		for i, k := range ks {
+			if i > 0 {
+				w(", ")
+			}
+			w("%s", leanStr(k.fn+" "+k.recv+" "+k.op+": "+strings.Join(sites[k], " ")))
+		}
+		w("]\n\n")
+	}
 	w("def mapRangeSites : List String := [")
 	for i, m := range mapRanges {
 		if i > 0 {
